@@ -143,6 +143,13 @@ def load_item(run, c, k):
     return None
 
 
+# finite numeric constants of the standard library (binary64 values, as exact rationals)
+NUMERIC_CONSTANTS = {'sys.float_info.epsilon': str(__import__('fractions').Fraction(2.0 ** -52)),
+                     'sys.float_info.min': str(__import__('fractions').Fraction(__import__('sys').float_info.min)),
+                     'sys.float_info.max': str(__import__('fractions').Fraction(__import__('sys').float_info.max)),
+                     'math.pi': str(__import__('fractions').Fraction(__import__('math').pi)),
+                     'math.e': str(__import__('fractions').Fraction(__import__('math').e)),
+                     'numpy.pi': str(__import__('fractions').Fraction(__import__('math').pi))}
 VALUE_ATTRS = {'numpy.nan', 'numpy.NaN', 'numpy.NAN', 'numpy.inf', 'numpy.Inf'}
 
 
@@ -193,11 +200,31 @@ def call_module(run, path, args, kwargs, node):
     if name.startswith('builtins.'):
         return call_builtin(run, name[9:], args, kwargs, node)
     run.trusted.add('library contract: ' + name)
-    if name in ('copy.deepcopy', 'copy.copy'):
+    if name == 'copy.deepcopy':
         v = args[0]
         if isinstance(v, SV):
             return snapshot(v)
         raise sx.Unsupported("deepcopy of " + repr(v))
+    if name == 'copy.copy':
+        # SHALLOW: a new object whose attributes are the SAME objects (mutable attributes stay shared)
+        v = args[0]
+
+        def _mutable(t):
+            return isinstance(t, (TDict, TSet, TList, sym.TObj)) or t is TNDArray
+        if isinstance(v, SObj) and v.fields is not None:
+            return SObj(v.cls, fields=dict(v.fields))
+        if isinstance(v, SObj):
+            if any(_mutable(t) for t in v.spec().all_fields().values()):
+                raise sx.Unsupported("shallow copy of an object held in a container (sharing of its mutable attributes is outside the value model)")
+            return snapshot(v)
+        if isinstance(v, (SDict, SList, SSet)):
+            et = v.typ.v if isinstance(v, SDict) else (v.typ.e if isinstance(v, SList) else None)
+            if et is not None and _mutable(et):
+                raise sx.Unsupported("shallow copy of a container of mutable objects")
+            return snapshot(v)
+        if isinstance(v, SV):
+            return v
+        raise sx.Unsupported("copy of " + repr(v))
     if name == 'random.random':
         u = run.fresh_const(z3.RealSort(), 'u')
         run.pc += [u >= 0, u < 1]
@@ -240,6 +267,31 @@ def call_module(run, path, args, kwargs, node):
             run.pc.append(z3.Implies(lst.n > 0, r * z3.ToReal(lst.n) == lemmas.ssum(lst.arr, lst.n)))
             return SNum(r)
         raise sx.Unsupported("np.mean of " + repr(lst))
+    if name in ('math.isclose', 'numpy.isclose') and len(args) == 2 and all(isinstance(a, SNum) for a in args):
+        # math.isclose: |a-b| <= max(rel_tol*max(|a|,|b|), abs_tol)   (defaults 1e-09, 0.0)
+        # numpy.isclose (scalars): |a-b| <= atol + rtol*|b|           (defaults 1e-05, 1e-08)
+        def _abs(t):
+            return z3.If(t >= 0, t, -t)
+
+        def _kw(nm, dflt):
+            v = kwargs.get(nm)
+            if v is None:
+                return z3.RealVal(dflt)
+            if not isinstance(v, SNum):
+                raise sx.Unsupported(name + ' tolerance')
+            return v.real()
+        a, b = args[0].real(), args[1].real()
+        if name == 'math.isclose':
+            rel, ab = _kw('rel_tol', '1e-9'.replace('1e-9', '0.000000001')), _kw('abs_tol', '0')
+            if not z3.is_rational_value(z3.simplify(rel)):
+                raise sx.Unsupported('math.isclose with a symbolic rel_tol')
+            m = z3.If(_abs(a) >= _abs(b), _abs(a), _abs(b))
+            bound = z3.If(rel * m >= ab, rel * m, ab)
+            return SBool(_abs(a - b) <= bound)
+        rt, at = _kw('rtol', '0.00001'), _kw('atol', '0.00000001')
+        if not z3.is_rational_value(z3.simplify(rt)):
+            raise sx.Unsupported('numpy.isclose with a symbolic rtol')
+        return SBool(_abs(a - b) <= at + rt * _abs(b))
     if name == 'math.sqrt':
         a = args[0]
         run.may_raise(a.t < 0, 'ValueError', 'math.sqrt of a negative number')
@@ -472,7 +524,20 @@ def call_builtin(run, name, args, kwargs, node):
         a = args[0]
         if isinstance(a, SNum) and a.is_int:
             return a
+        if isinstance(a, SNum):
+            # truncation toward zero
+            x = a.real()
+            return SNum(z3.If(x >= 0, z3.ToInt(x), -z3.ToInt(-x)))
         raise sx.Unsupported("int of " + repr(a))
+    if name == 'round' and len(args) == 1 and isinstance(args[0], SNum):
+        a = args[0]
+        if a.is_int:
+            return a
+        # nearest integer (ties to even are left open: any nearest integer)
+        r = run.fresh_const(z3.IntSort(), 'round')
+        x = a.real()
+        run.assume(z3.ToReal(r) - x <= z3.RealVal('1/2'), x - z3.ToReal(r) <= z3.RealVal('1/2'))
+        return SNum(r)
     if name == 'str':
         a = args[0]
         if isinstance(a, SKey):
@@ -521,6 +586,28 @@ def call_builtin(run, name, args, kwargs, node):
             raise sx.Unsupported("range with a step")
         n = z3.If(hi >= lo, hi - lo, 0)
         return sx.Iter('seq', n=z3.simplify(n), at=lambda i: SNum(z3.simplify(lo + i)))
+    if name == 'sorted' and len(args) == 1 and not kwargs:
+        x = args[0]
+        if isinstance(x, DictView) and x.what == 'keys':
+            x = x.d
+        dom = x.dom if isinstance(x, (SDict, SSet)) else None
+        ktyp = x.typ.k if isinstance(x, (SDict, SSet)) else None
+        if dom is not None and ktyp is TKey:
+            # the keys in ascending order: a duplicate-free list of exactly the keys; str and numbers do not compare
+            k1 = z3.Const(fresh_name('sk'), sym.KeyS)
+            k2 = z3.Const(fresh_name('sk'), sym.KeyS)
+            run.may_raise(z3.Exists([k1, k2], z3.And(dom[k1], dom[k2], IS_NUM(k1), z3.Not(IS_NUM(k2)))), 'TypeError',
+                          "'<' not supported between instances of 'str' and 'int'")
+            lt = TList(TKey)
+            res = run.fresh(lt, 'sorted')
+            i = z3.Int(fresh_name('si'))
+            j = z3.Int(fresh_name('sj'))
+            run.assume(sym.forall([i], z3.Implies(z3.And(i >= 0, i < res.n), dom[res.arr[i]]), [res.arr[i]]),
+                       sym.forall([i, j], z3.Implies(z3.And(i >= 0, i < j, j < res.n), res.arr[i] != res.arr[j])),
+                       sym.forall([k1], z3.Implies(dom[k1], z3.Exists([i], z3.And(i >= 0, i < res.n, res.arr[i] == k1))), [dom[k1]]))
+            run.trusted.add('library contract: sorted(keys) is a duplicate-free list of exactly the keys; TypeError for mixed str / number keys')
+            return res
+        raise sx.Unsupported("sorted of " + repr(x))
     if name == 'reversed' and len(args) == 1 and isinstance(args[0], SList):
         x = args[0]
         res = run.fresh(x.typ, 'rev')
